@@ -9,6 +9,7 @@ package main
 //      identical to the transport's error) and correspondence with the Lean fault model (count, class, layer shape).
 
 import (
+	"github.com/ossrs/go-oryx-lib/amf0"
 	"bytes"
 	stderrors "errors"
 	"fmt"
@@ -604,7 +605,20 @@ func c08WriteSession(w io.Writer, ms []rmsg, viaPacket bool) (nOK int, err error
 	p = rtmp.NewProtocol(&h.RW{Writer: w})
 	status = h.Safe(func() string {
 		for _, m := range ms {
-			if viaPacket {
+			if viaPacket && m.ty == 20 {
+				// a command: the packet kind its name stands for (connect and createStream are the requests WritePacket keeps
+				// books about), decoded from the payload and written through WritePacket
+				var pkt rtmp.Packet = rtmp.NewCallPacket()
+				if bytes.HasPrefix(m.payload, []byte("\x02\x00\x07connect")) {
+					pkt = rtmp.NewConnectAppPacket()
+				} else if bytes.HasPrefix(m.payload, []byte("\x02\x00\x0ccreateStream")) {
+					pkt = rtmp.NewCreateStreamPacket()
+				}
+				if uerr := pkt.UnmarshalBinary(m.payload); uerr != nil {
+					return "harness: " + uerr.Error()
+				}
+				err = p.WritePacket(pkt, int(m.sid))
+			} else if viaPacket {
 				pkt := rtmp.NewSetChunkSize()
 				pkt.ChunkSize = uint32(m.payload[0])<<24 | uint32(m.payload[1])<<16 | uint32(m.payload[2])<<8 | uint32(m.payload[3])
 				err = p.WritePacket(pkt, int(m.sid))
@@ -763,6 +777,31 @@ func c08Rtmp(c *h.Ctx) {
 	wire, cum, calls, st := c08WriteClean(pk)
 	if c.Hold(st == "ok", "rtmp.write.ok", rmsgsStr(pk), st, "ok") {
 		c08RtmpWriteSweeps(c, pk, wire, cum, calls, nil, "writepacket", true)
+	}
+	// WritePacket of the requests it keeps books about (connect, createStream) and of a plain call: a connect large
+	// enough to take several transport writes; a fault at any of them comes back with its cause
+	{
+		cp := rtmp.NewConnectAppPacket()
+		cp.CommandObject.Set("app", amf0.NewString("live")).Set("tcUrl", amf0.NewString("rtmp://example/"+strings.Repeat("u", 9000)))
+		cb, _ := cp.MarshalBinary()
+		cs := rtmp.NewCreateStreamPacket()
+		cs.TransactionID = 2
+		csb, _ := cs.MarshalBinary()
+		call := rtmp.NewCallPacket()
+		call.CommandName, call.TransactionID, call.CommandObject = "releaseStream", 3, amf0.NewNull()
+		call.Args = amf0.NewString("stream")
+		callb, _ := call.MarshalBinary()
+		reqs := []rmsg{{cid: 3, ty: 20, sid: 0, ts: 0, payload: cb, desc: h.Hex(cb)}, {cid: 3, ty: 20, sid: 0, ts: 0, payload: csb, desc: h.Hex(csb)}, {cid: 3, ty: 20, sid: 0, ts: 0, payload: callb, desc: h.Hex(callb)}}
+		wire, cum, calls, st := c08WriteClean(reqs)
+		if c.Hold(st == "ok", "rtmp.write.ok", "connect (9 KB), createStream, releaseStream", st, "ok") {
+			bounds := append([]int{1, 12, 13, 140, 141, 4096, 4097, 8192, 8193}, cum...)
+			acc := 0
+			for _, n := range calls {
+				acc += n
+				bounds = append(bounds, acc-1, acc, acc+1)
+			}
+			c08RtmpWriteSweeps(c, reqs, wire, cum, calls, c08Offsets(len(wire), c.N(80, 2000), bounds, r), "writepacket-requests", true)
+		}
 	}
 	// chunk streams the library's own writer never produces: the 2- and 3-byte forms of the basic header (chunk stream ids
 	// 64..65599), written here at the chunk level. A cut or a fault between the bytes of such a header surfaces with its
